@@ -18,7 +18,7 @@ const SnapDepth = 6
 // PrimNames are the builtin / host functions the model knows as first-class values.
 var PrimNames = map[string]bool{"+": true, "-": true, "*": true, "<": true, ">": true, "<=": true, ">=": true,
 	"==": true, "!=": true, "not": true, "cons": true, "first": true, "rest": true, "list": true, "array": true,
-	"aget": true, "aset": true, "append": true, "len": true, "concat": true, "map": true, "apply": true, "trace": true, "failk": true}
+	"aget": true, "aset": true, "append": true, "len": true, "concat": true, "/": true, "map": true, "apply": true, "trace": true, "failk": true}
 
 // QuotedSyms is the pool of quoted symbols; the runner numbers them in this order and Runner
 // interns them in this order in every fresh interpreter (symbols compare by number).
@@ -35,11 +35,23 @@ func RenderValue(v zygo.Sexp, d int) string {
 	case *zygo.SexpInt:
 		return fmt.Sprintf("I%d", x.Val)
 	case *zygo.SexpFloat:
-		// the model has the floats h/2 of small magnitude only
-		if h := x.Val * 2; h == math.Trunc(h) && math.Abs(h) < 1e15 && !(h == 0 && math.Signbit(h)) {
-			return fmt.Sprintf("F%d", int64(h))
+		// m * 2^e with m odd, the form of the model (run.ml: SvFlt); infinities, NaN and -0 are outside it
+		f := x.Val
+		if f == 0 && !math.Signbit(f) {
+			return "F0p0"
 		}
-		return "OTHER:float"
+		if f == 0 || math.IsInf(f, 0) || math.IsNaN(f) {
+			return "OTHER:float"
+		}
+		frac, exp := math.Frexp(f)
+		m, e := int64(frac*(1<<53)), exp-53
+		for m%2 == 0 {
+			m /= 2
+			e++
+		}
+		return fmt.Sprintf("F%dp%d", m, e)
+	case *zygo.SexpChar:
+		return fmt.Sprintf("C%d", x.Val)
 	case *zygo.SexpBool:
 		if x.Val {
 			return "Bt"
